@@ -30,7 +30,7 @@ ASSUMPTIONS = ['the release points are wrappers on Expecter.existing_data / new_
                'TIMEOUTs are produced deterministically (no unit left for the call, T = 0.1 s); a twin difference must '
                'reproduce in two further serial runs',
                '_async_pre_await.py is not importable on this interpreter and is not exercised']
-REQUIRED = ['histories', 'pty_histories', 'calls_compared', 'awaited_calls', 'blocking_calls', 'mixed_objects', 'eof_calls', 'timeout_calls',
+REQUIRED = ['histories', 'byte_cut_histories', 'pty_histories', 'calls_compared', 'awaited_calls', 'blocking_calls', 'mixed_objects', 'eof_calls', 'timeout_calls',
             'prewritten_units', 'timeout0_subchecks']
 
 T = 0.1
@@ -201,6 +201,8 @@ def conv_unit(u, enc):
         return u
     if isinstance(u, list):
         return [conv_unit(x, enc) for x in u]
+    if isinstance(u, bytes):
+        return u
     return u.encode('utf-8' if enc else 'latin-1')
 
 
@@ -239,8 +241,22 @@ def do_call(tw, call, enc, mode, loop):
             pats.append(conv(p['x']))
         else:
             pats.append(conv(p['re']))
-    tw.prewrite([conv_unit(u, enc) for u in call.get('pre', [])])
-    tw.queue = [conv_unit(u, enc) for u in call['units']]
+    # what an earlier call left undelivered is still on its way: it arrives before anything newer
+    carried = getattr(tw, 'carry', [])
+    tw.carry = []
+    flat = []
+    for u in carried:
+        flat.extend(u if isinstance(u, list) else [u])
+    if 'EOF' in flat:
+        flat = flat[:flat.index('EOF')]
+        tw.prewrite(flat)
+        tw.queue = ['EOF']
+        tw.release()
+        tw.queue = []
+    else:
+        tw.prewrite(flat)
+        tw.prewrite([conv_unit(u, enc) for u in call.get('pre', [])])
+        tw.queue = [conv_unit(u, enc) for u in call['units']]
     Tc = call.get('T', T)
     kw = {'timeout': Tc, 'searchwindowsize': call.get('W', -1)}
     ret = exc = None
@@ -266,8 +282,9 @@ def do_call(tw, call, enc, mode, loop):
     except BaseException as e:
         exc = e
     dt = time.time() - t0
-    # units of this call that were not released stay queued for nobody: drop them from every twin alike
+    # units of this call that were not released are carried over to the next call (they are part of the stream)
     left = len(tw.queue)
+    tw.carry = list(tw.queue)
     tw.queue = []
     return outcome(c, ret, exc), dt, left
 
@@ -278,6 +295,18 @@ def gen_case(rng):
     if enc is None:
         text = text.replace('\xe9', 'e')
     pieces = [p for p in G.rand_cuts(rng, text, 8) if p]
+    if enc and rng.random() < 0.5:
+        # cut the encoded stream at arbitrary BYTE offsets: a delivery unit may end inside a character, possibly
+        # right where the history switches between a blocking and an awaited call
+        raw = text.encode('utf-8')
+        n = len(raw)
+        k = rng.randint(0, min(7, max(0, n - 1)))
+        cuts = sorted(rng.sample(range(1, n), k)) if n > 1 and k else []
+        pieces, a = [], 0
+        for c in cuts + [n]:
+            if raw[a:c]:
+                pieces.append(raw[a:c])
+            a = c
     ncalls = rng.randint(1, 5)
     calls = []
     timeouts = 0
@@ -287,6 +316,12 @@ def gen_case(rng):
         pats = [p for p in pats if not (isinstance(p, dict) and p.get('c'))]
         if not pats:
             pats = [{'x': 'a'}] if kind == 'expect_exact' else [{'re': 'a'}]
+        # (stream order: what is written before the call comes first)
+        pre = []
+        if pieces and rng.random() < 0.3:
+            pre = [pieces.pop(0)]
+            if pieces and rng.random() < 0.3:
+                pre.append(pieces.pop(0))
         n = rng.randint(0, 3) if pieces else 0
         units = []
         for _ in range(n):
@@ -296,11 +331,6 @@ def gen_case(rng):
                 units.append([pieces.pop(0), pieces.pop(0)])
             else:
                 units.append(pieces.pop(0))
-        pre = []
-        if pieces and rng.random() < 0.3:
-            pre = [pieces.pop(0)]
-            if pieces and rng.random() < 0.3:
-                pre.append(pieces.pop(0))
         calls.append({'op': kind, 'pats': pats, 'units': units, 'pre': pre, 'W': rng.choice([-1, -1, -1, None, 2, 4, 100])})
     # EOF at the end of the last call's units (alone or together with the last data)
     if rng.random() < 0.6:
@@ -316,6 +346,8 @@ def one(case, acc):
     install()
     acc.case()
     acc.count('histories')
+    if any(isinstance(u, bytes) for c0 in case['calls'] for u in list(c0['units']) + list(c0.get('pre', []))):
+        acc.count('byte_cut_histories')
     enc = case['enc']
     loop = asyncio.new_event_loop()
     asyncio.set_event_loop(loop)
